@@ -318,8 +318,6 @@ func (v *Verifier) applyContract(st *State, in *ssa.Call, c *Contract, fn *ssa.F
 				cell = v.cellSortByName(st.top().fn, m)
 			}
 			old := st.getHeap(cell)
-			nh := Fresh(heapName(cell), heapSort(cell))
-			st.setHeap(cell, nh)
 			isAllocOnly := false
 			for _, a := range c.Allocs {
 				if a == m {
@@ -332,8 +330,9 @@ func (v *Verifier) applyContract(st *State, in *ssa.Call, c *Contract, fn *ssa.F
 				}
 			}
 			if isAllocOnly {
-				r := BVar("r$", SInt)
-				st.assume(Forall([]*Term{r}, Implies(Ge(r, oldLW), Eq(Select(nh, r), Select(old, r)))))
+				st.setHeap(cell, HeapExt(old, oldLW))
+			} else {
+				st.setHeap(cell, Fresh(heapName(cell), heapSort(cell)))
 			}
 		}
 		st.havocLW()
